@@ -374,7 +374,7 @@ def r7_handlers(chk: Check) -> None:
         val = kwarg(kw[0], "path")
         chk.decide(val is not None and fmt is not None and any(x.endswith(f"get_path({fmt})") for x in canon(ih, val)), "C16.R7", ih, "CassetteWriter(path=path)", f"`path` receives {unparse(val)}", ih.loc(kw[0]))
         val = kwarg(kw[0], "preserve_bytes")
-        chk.decide(val is not None and unparse(val) == "config.report.preserve_bytes", "C16.R7", ih, "CassetteWriter(preserve_bytes=config.report.preserve_bytes)", f"`preserve_bytes` receives {unparse(val)}", ih.loc(kw[0]))
+        chk.decide(val is not None and ceq(ih, val, 'config.report.preserve_bytes'), "C16.R7", ih, "CassetteWriter(preserve_bytes=config.report.preserve_bytes)", f"`preserve_bytes` receives {unparse(val)}", ih.loc(kw[0]))
     post = P.func(f"{CAS}:CassetteWriter.__post_init__")
     th_ = [c for c in body_calls(post) if last_attr(c) == "Thread"]
     wv = kwarg(th_[0], "target") if th_ else None
